@@ -150,6 +150,39 @@ struct Mined {
   }
 };
 
+// A coupon-LIST image written by hand following the documented layout (preamble 2 ints: preInts 2, serVer 1, family 7, lg_k,
+// lgArr 3, flags COMPACT, list count, mode byte = LIST | type << 2; then the coupons, value << 26 | 26-bit address).  The only
+// way to present coupon values >= 32 (a hash with 31+ leading zeros) to a sketch.
+static inline std::vector<uint8_t> craft_list_image(int lgk, int type, const std::vector<Coupon>& cs) {
+  std::vector<uint8_t> b = {2, 1, 7, (uint8_t)lgk, 3, (uint8_t)(8 | (cs.empty() ? 4 : 0)), (uint8_t)cs.size(), (uint8_t)(((type - 4) / 2) << 2)};
+  for (auto& c : cs) { uint32_t w = (c.val << 26) | (c.addr & 0x3ffffffu); for (int k = 0; k < 4; k++) b.push_back((uint8_t)(w >> (8 * k))); }
+  return b;
+}
+// 3..6 coupons with values 32..63: two on the same slot (value small then large, or large then small), 63 and 32 among them
+static inline std::vector<Coupon> craft_coupons(vt::Rng& g, int lgk) {
+  std::vector<Coupon> cs;
+  uint32_t a = (uint32_t)g.below(1u << 26), mask = (1u << lgk) - 1;
+  uint32_t v1 = (uint32_t)g.range(32, 50), v2 = v1 + (uint32_t)g.range(1, 13);
+  uint32_t b = g.chance(50) ? a : ((a & mask) | ((uint32_t)g.below(1u << (26 - lgk)) << lgk));     // same address or same slot only
+  if (g.chance(50)) std::swap(v1, v2);
+  cs.push_back({a, v1}); if (b != a || v1 != v2) cs.push_back({b, v2});
+  cs.push_back({(uint32_t)g.below(1u << 26), 63});
+  if (g.chance(70)) cs.push_back({(uint32_t)g.below(1u << 26), 32});
+  while (cs.size() < 6 && g.chance(50)) cs.push_back({(uint32_t)g.below(1u << 26), (uint32_t)g.range(1, 63)});
+  for (size_t x = cs.size(); x > 1; x--) if (g.chance(30)) std::swap(cs[x - 1], cs[g.below(x)]);
+  // no exact duplicates
+  std::vector<Coupon> out;
+  for (auto& c : cs) { bool d = false; for (auto& o : out) if (o.addr == c.addr && o.val == c.val) d = true; if (!d) out.push_back(c); }
+  return out;
+}
+// get_lower_bound / get_upper_bound must refuse a number of standard deviations outside 1..3
+template<class S> static inline void emit_bad_arg(const S& s, const char* key, int id, vt::Rng& g) {
+  int k = g.chance(50) ? 0 : (int)g.range(4, 7); bool upper = g.chance(50), threw = false;
+  try { if (upper) (void)s.get_upper_bound((uint8_t)k); else (void)s.get_lower_bound((uint8_t)k); }
+  catch (const std::invalid_argument&) { threw = true; }
+  Ev("BadArg").i(key, id).i("k", k).b("upper", upper).b("threw", threw).emit();
+}
+
 static inline long long fl(double x) { if (!(x == x)) return -1; double f = std::floor(x); return f > 2e9 ? 2000000000LL : (f < -2e9 ? -2000000000LL : (long long)f); }
 
 struct View {            // decoded public images of a sketch
